@@ -20,6 +20,8 @@ def agg_rules(tier: str):
     out = [
         ("eq", "r(P,X) :- grp(P), X = #{F} {{ V : q(P,V) }}.", "r2"),
         ("eq_swapped", "r(X,P) :- grp(P), X = #{F} {{ V : q(P,V) }}.", "r2s"),
+        # aggregate before the group binder, value first in the head (wave 7)
+        ("eq_swapped_aggfirst", "r(X,P) :- X = #{F} {{ V : q(P,V) }}, grp(P).", "r2s"),
         ("eq_rev", "r(P,X) :- grp(P), #{F} {{ V : q(P,V) }} = X.", "r2"),
         ("eq_nogrp", "r(X) :- X = #{F} {{ V : q(P,V) }}.", "r1"),
         ("eq_tuple", "r(P,X) :- grp(P), X = #{F} {{ V,W : q(P,V), dq(P,W) }}.", "r2"),
@@ -81,6 +83,9 @@ USERS = [
     ("swapped_weak", ":~ r(X,P), X > -9, X < 9. [X@1,P]", ["r2s"]),
     ("swapped_sum", "u(S) :- S = #sum {{ X,P : r(X,P), X > -9, X < 9 }}.", ["r2s"]),
     ("swapped_min", "#minimize {{ X@1,P : r(X,P), X > -9, X < 9 }}.", ["r2s"]),
+    ("swapped_sum_noguard", "u(S) :- S = #sum {{ X,P : r(X,P) }}.", ["r2s"]),
+    ("swapped_sum_neg_noguard", "u(S) :- S = #sum {{ -X,P : r(X,P) }}.", ["r2s"]),
+    ("swapped_min_noguard", "#minimize {{ X@1,P : r(X,P) }}.", ["r2s"]),
     ("min_arith_tuple", "#minimize {{ X@1,P/3 : r(P,X) }}.", ["r2"]),
     ("weak_fun_arith_tuple", ":~ r(P,X). [X@1,f(P/3)]", ["r2"]),
     ("weak_zero_tuple", ":~ r(P,X). [X@1,P*0]", ["r2"]),
@@ -132,7 +137,8 @@ def jobs(tier: str):
                         user = utext.format()
                         prog = "\n".join(x for x in (qdef, rule, user) if x)
                         yield job("C12", prog, universe(qname, tier), [config(["minmax_chains"], inp, [], oracle)],
-                                  meta={"q": qname, "agg": aname, "fun": fun, "user": uname})
+                                  meta={"q": qname, "agg": aname, "fun": fun, "user": uname,
+                                        **({"owner_only": True} if aname == "eq_swapped_aggfirst" or uname.endswith("_noguard") else {})})
 
     def signed_groups():
         # groups g and -g: tuple terms like |P| or P*P identify the group only up to sign
